@@ -2291,6 +2291,11 @@ evhttp_parse_headers_(struct evhttp_request *req, struct evbuffer* buffer)
 			goto error;
 		}
 
+		/* RFC 9110 5.5: NUL and bare CR are invalid in a field line; the
+		 * string functions below would silently cut the line at a NUL. */
+		if (strlen(line) != len || strchr(line, '\r') != NULL)
+			goto error;
+
 		if (*line == '\0') { /* Last header - Done */
 			status = ALL_DATA_READ;
 			mm_free(line);
